@@ -39,15 +39,16 @@ def ramp_value(p, low, high, start, end):
 
 
 # ----------------------------------------------------------------------------- linear_ramp
-def ramp_args(eng):
-    b, n = sym_vector(eng, "birth")
-    p, _ = sym_vector(eng, "pers", n=n)
+def ramp_args(eng, dtype="float"):
+    b, n = sym_vector(eng, "birth", dtype=dtype)
+    p, _ = sym_vector(eng, "pers", n=n, dtype=dtype)
     vs = {k: eng.fresh_real(k) for k in ("low", "high", "start", "end")}
     eng.assume(vs["start"].t < vs["end"].t)
     return dict(birth=b, pers=p, **vs), {"n": n}
 
 
-def linear_ramp_contract():
+def linear_ramp_contract(dtype="float"):
+    """dtype='int': births / persistences of an integer-typed diagram - the weights are real numbers all the same"""
     def ensures(a, res):
         e = a.eng
         k = e.fresh_int("kq", lo=0, hi=a.g["n"])
@@ -56,8 +57,8 @@ def linear_ramp_contract():
 
     def inv(st):
         return [("prefix_filled", st.each([(0, st.k)], lambda k: lift(st.w.get(k)) == ramp_value(st.pers.get(k), st.low, st.high, st.start, st.end), name="w"), "P")]
-    return Contract(WMOD, "linear_ramp", ramp_args, ensures=ensures, definedness="P", loops={0: LoopContract("for i in range(n)", inv, cls="P")},
-                    summary=ramp_summary)
+    return Contract(WMOD, "linear_ramp", (lambda eng: ramp_args(eng, dtype)), ensures=ensures, definedness="P", loops={0: LoopContract("for i in range(n)", inv, cls="P")},
+                    summary=ramp_summary, variant="" if dtype == "float" else "dtype=%s" % dtype)
 
 
 def ramp_summary(eng, pos, kw):
@@ -72,9 +73,9 @@ def ramp_summary(eng, pos, kw):
 KERNELS = ("gauss_scalar", "gauss_iso", "gauss_diag", "gauss_corr", "uniform", "user")
 
 
-def transform_contract(kernel_kind, weight_kind="user", skew=True):
+def transform_contract(kernel_kind, weight_kind="user", skew=True, dtype="float"):
     def make_args(eng):
-        D, n = sym_diagram(eng, "pers_dgm")
+        D, n = sym_diagram(eng, "pers_dgm", dtype=dtype)
         rb, rp = eng.fresh_int("rb", lo=1), eng.fresh_int("rp", lo=1)
         B, _ = sym_vector(eng, "_bpnts", n=rb + 1)
         P, _ = sym_vector(eng, "_ppnts", n=rp + 1)
@@ -154,7 +155,7 @@ def transform_contract(kernel_kind, weight_kind="user", skew=True):
     return Contract(MOD, "_transform", make_args, ensures=ensures, definedness="assume",
                     loops={0: LoopContract("for i in range(n)", inv, cls="P", havoc={"pers_img": havoc_img("loop0")}),
                            1: LoopContract("for i in range(n)", inv, cls="P", havoc={"pers_img": havoc_img("loop1")})},
-                    variant="%s,%s,skew=%s" % (kernel_kind, weight_kind, skew))
+                    variant="%s,%s,skew=%s%s" % (kernel_kind, weight_kind, skew, "" if dtype == "float" else ",dtype=" + dtype))
 
 
 def table():
@@ -171,6 +172,10 @@ def all_contracts(tier):
     cs.append(transform_contract("gauss_iso", "persistence", False))
     cs.append(transform_contract("gauss_diag", "linear_ramp", True))
     cs.append(transform_contract("uniform", "persistence", False))
+    # integer-typed diagrams (int arrays, nested lists of ints): same pixels
+    cs.append(linear_ramp_contract("int"))
+    cs.append(transform_contract("gauss_diag", "linear_ramp", True, dtype="int"))
+    cs.append(transform_contract("uniform", "persistence", True, dtype="int"))
     t = table()
     return cs, t
 
